@@ -46,6 +46,8 @@ def text_structure(fn, e, depth=0):
         return out
     if isinstance(e, ast.BinOp) and isinstance(e.op, ast.Add):
         return text_structure(fn, e.left, depth + 1) + text_structure(fn, e.right, depth + 1)
+    if isinstance(e, ast.IfExp):
+        return [("alt", [text_structure(fn, e.body, depth + 1), text_structure(fn, e.orelse, depth + 1)])]
     if isinstance(e, ast.Name):
         inits = [st for st in walk_no_nested(fn) if isinstance(st, ast.Assign) and len(st.targets) == 1 and isinstance(st.targets[0], ast.Name) and st.targets[0].id == e.id]
         augs = [st for st in walk_no_nested(fn) if isinstance(st, ast.AugAssign) and isinstance(st.target, ast.Name) and st.target.id == e.id and isinstance(st.op, ast.Add)]
@@ -61,6 +63,8 @@ def text_structure(fn, e, depth=0):
                 else:
                     out += inner
             return out
+        if len(inits) > 1 and not augs:
+            return [("alt", [text_structure(fn, st.value, depth + 1) for st in inits])]
         return [("var", e.id)]
     if isinstance(e, ast.Call) and isinstance(e.func, ast.Attribute) and e.func.attr == "join" and len(e.args) == 1 and isinstance(e.func.value, ast.Constant) \
             and isinstance(e.func.value.value, str):
@@ -122,6 +126,8 @@ def flatten_order(parts, p_name, p_fields):
             out.append(f"literal:{p[1]!r}")
         elif p[0] == "var":
             out.append("name" if p[1] == p_name else p[1])
+        elif p[0] == "alt":
+            out.append("alt(" + " | ".join("+".join(flatten_order(a, p_name, p_fields)) for a in p[1]) + ")")
         else:
             _, it, targets, inner, sep = p
             if it == p_fields and len(targets) == 2:
@@ -132,4 +138,24 @@ def flatten_order(parts, p_name, p_fields):
                     out.append("field.name" if q == n_var else "field.type" if q == t_var else q)
             else:
                 out.append(f"repeat({it})")
+    return out
+
+
+def literal_prefix(parts) -> str:
+    """Longest literal text every string described by `parts` starts with."""
+    out = ""
+    for p in parts:
+        if p[0] == "lit":
+            out += p[1]
+            continue
+        if p[0] == "alt":
+            alts = [literal_prefix(a) for a in p[1]]
+            common = alts[0] if alts else ""
+            for a in alts[1:]:
+                k = 0
+                while k < min(len(common), len(a)) and common[k] == a[k]:
+                    k += 1
+                common = common[:k]
+            out += common
+        break
     return out
